@@ -94,6 +94,19 @@ fn main() {
         Some("c14hash") => {
             println!("{}", fam_c14::hash_of(&fam_c14::CANON));
         }
+        Some("scenario") => {
+            for sc in scenarios::all() {
+                if sc.id == args[2] {
+                    let s = sim::Sim::run_opts(&sc.trace, true, !sc.symptom_oracles.is_empty());
+                    for l in &s.trace_log {
+                        println!("{l}");
+                    }
+                    for v in &s.violations {
+                        println!("{} {} @{}: {}", v.prop, v.oracle, v.step, v.detail);
+                    }
+                }
+            }
+        }
         Some("scenarios") => {
             // Runs every directed history and prints which of them violate which property.
             fn show<E: engine::Engine>(prop: &str) {
